@@ -682,12 +682,15 @@ func (h *Handler) ServeHTTP(w http.ResponseWriter, r *http.Request) {
 	w.Header().Add("X-Geminidb-Version", h.Version)
 	w.Header().Add("X-Geminidb-Build", h.BuildType)
 
+	// The /debug prefixes are served outside the router: they go through the same authentication as the
+	// routes. Profiles and the shard status are for the administrator, the statistics for any valid user
+	// (as /metrics).
 	if strings.HasPrefix(r.URL.Path, "/debug/pprof") && h.Config.PprofEnabled {
-		h.handleProfiles(w, r)
+		authenticate(h.AdminOnly(h.handleProfiles), h, h.Config.AuthEnabled).ServeHTTP(w, r)
 	} else if strings.HasPrefix(r.URL.Path, "/debug/vars") {
-		h.serveExpvar(w, r)
+		authenticate(func(w http.ResponseWriter, r *http.Request, _ meta2.User) { h.serveExpvar(w, r) }, h, h.Config.AuthEnabled).ServeHTTP(w, r)
 	} else if strings.HasPrefix(r.URL.Path, "/debug/query") {
-		h.serveDebugQuery(w, r)
+		authenticate(h.AdminOnly(h.serveDebugQuery), h, h.Config.AuthEnabled).ServeHTTP(w, r)
 	} else {
 		h.mux.ServeHTTP(w, r)
 	}
@@ -747,6 +750,17 @@ func (h *Handler) checkAuth(w http.ResponseWriter, r *http.Request, user meta2.U
 		h.Logger.Info("execute backup by admin user", zap.String("userID", user.ID()))
 	}
 	return true
+}
+
+// AdminOnly turns a handler without a user parameter into one AddRoutes wraps in authentication and that
+// only the administrator may call (everybody when authentication is disabled).
+func (h *Handler) AdminOnly(inner func(http.ResponseWriter, *http.Request)) func(http.ResponseWriter, *http.Request, meta2.User) {
+	return func(w http.ResponseWriter, r *http.Request, user meta2.User) {
+		if ok := h.checkAuth(w, r, user); !ok {
+			return
+		}
+		inner(w, r)
+	}
 }
 
 func (h *Handler) serveBackupRun(w http.ResponseWriter, r *http.Request, user meta2.User) {
